@@ -354,7 +354,7 @@ func init() {
 			Only(R16(3, core.PkgGcsemu, core.PkgGcsutil), fns(composeCopyFns...)),
 			Only(R15(), `handleGcsCompose`, `handleGcsCopy`),
 			Only(R22(), `Copy`),
-			Only(R10(), `Copy`, `compose`, `Compose`, `decode-target`, `no-in-place`),
+			Only(R10(), `Copy`, `compose`, `Compose`, `decode-target`, `no-in-place`, `map-update-through-stored-object`, `field-store-through-stored-object`),
 			Only(R33(), fns("(*GcsEmu).finishCompose")),
 			Only(R41(), fns("(*GcsEmu).handleGcsCopy", "(*GcsEmu).handleGcsCompose")),
 			R42(),
